@@ -237,3 +237,23 @@ WIDE_FAMILIES = {
     "component-id-parts": lambda n: _env([], {5: [enc(i) for i in range(n)]}),
     "parameters-repeated": lambda n: _env([], {7: enc([20, {21: "u"}] * n)}),
 }
+
+
+# ---- value sharing (tags 28 / 29): a DAG of n levels whose tree expansion has 2^n leaves ("billion laughs") ----------
+def shared_reference_doubling(n):
+    """n nested shareable arrays, each holding its inner array and a shared reference to it: 6 bytes per level"""
+    data = bytes.fromhex("d81c80")                       # innermost shareable [] gets the highest index
+    for k in range(n):
+        idx = n - k
+        data = bytes.fromhex("d81c82") + data + bytes.fromhex("d81d") + (bytes([idx]) if idx < 24 else bytes([0x18, idx]))
+    return Raw(data)
+
+
+SHARING_PLACEMENTS = {
+    "envelope-content": lambda x: enc(Tag(107, x)),
+    "envelope-member": lambda x: enc(Tag(107, Pairs([(2, enc([enc([-16, b"\0" * 32])])), (3, enc({1: 1, 2: 1, 3: enc({})})),
+                                                   ("#p", x)]))),
+    "inside-the-wrapped-manifest": lambda x: enc(Tag(107, Pairs([(2, enc([enc([-16, b"\0" * 32])])),
+                                                                (3, enc({1: 1, 2: 1, 3: enc({}), 5: x}))]))),
+    "command-argument": lambda x: _env([], {7: enc([20, x])}),
+}
